@@ -157,6 +157,19 @@ theorem policy_sound (k : Int) (ps : List Proc) (hnd : (cpusOf ps).Nodup) :
   refine ⟨a, b, ?_⟩
   rcases c with c | c <;> omega
 
+/-- the model's loop fuel never cuts a loop short: any fuel ≥ k gives the selection `policy` computes
+    (so `policy` is the Go loop run to its own `break`). -/
+theorem policy_fuel_irrelevant (k : Int) (ps : List Proc) (f₁ f₂ : Nat) (h1 : k.toNat ≤ f₁) (h2 : k.toNat ≤ f₂)
+    (hk : ¬ (ps.length : Int) < k) :
+    (pass2 (rot (pass1 (sortedBuckets ps) f₁ { need := k, out := [] }).2 (sortedBuckets ps)) f₂
+      (pass1 (sortedBuckets ps) f₁ { need := k, out := [] }).1).out = policy k ps := by
+  unfold policy
+  simp only [hk, if_false]
+  rw [pass1_fuel_irrelevant (sortedBuckets ps) f₁ (k.toNat + 1) { need := k, out := [] } h1 (by simp)]
+  have hle := pass1_need_le (sortedBuckets ps) (k.toNat + 1) { need := k, out := [] }
+  simp only at hle
+  rw [pass2_fuel_irrelevant _ f₂ (k.toNat + 1) _ (by omega) (by omega)]
+
 /-! ### 5.–7. adjustByCPUSet -/
 
 theorem mem_lsrPool {pods : List PodC} {res sys : List Int} {procs : List Proc} {x : Int}
@@ -345,6 +358,14 @@ theorem written_sound (f : FloatOps) (hf : FloatOK f) (b : Int) (oldN : Nat) (pr
         exact ⟨m1, m2, m3, m5⟩
     · simp only [List.length_append, Int.natCast_add]
       omega
+
+/-- in the words of the statement: a CPU exclusively owned by an LSE pod is never written. -/
+theorem written_excludes_lse_owned (f : FloatOps) (hf : FloatOK f) (b : Int) (oldN : Nat) (procs : List Proc)
+    (pods : List PodC) (res sys cs : List Int) (hnd : (cpusOf procs).Nodup)
+    (hw : adjustCPUSet f b oldN procs pods res sys = .write cs) (c : Int)
+    (hown : ∃ p ∈ pods, p.valid = true ∧ p.qos = qLSE ∧ c ∈ p.cpus)
+    (hexcl : ∀ q ∈ pods, q.valid = true → c ∈ q.cpus → q.qos = qLSE) : c ∉ cs := fun hc =>
+  ((written_sound f hf b oldN procs pods res sys cs hnd hw).2.1 c hc).2.2.2 (exclusively_lse pods c hown hexcl)
 
 /-- enough eligible CPUs ⇒ exactly the wanted number of distinct CPUs is written. -/
 theorem exact_when_enough (f : FloatOps) (hf : FloatOK f) (b : Int) (oldN : Nat) (procs : List Proc) (pods : List PodC)
